@@ -112,7 +112,7 @@ def main(tier):
         with open(os.path.join(tmpd, 'MC_C16_gen.tla'), 'w') as f:
             f.write(imports.gen_module(mods, bodies, script_steps))
         with open(os.path.join(tmpd, 'c16.cfg'), 'w') as f:
-            f.write('CONSTANTS\n Body <- BodyDef\n Modules <- ModulesDef\n ScriptSet <- ScriptSetDef\n Submodule <- SubmoduleDef\n'
+            f.write('CONSTANTS\n Body <- BodyDef\n Modules <- ModulesDef\n ScriptSet <- ScriptSetDef\n Submodule <- SubmoduleDef\n OwnModules <- OwnModulesDef\n'
                     'INIT Init\nNEXT Next\nINVARIANT Emit\nCHECK_DEADLOCK FALSE\n')
         res = tlc.run('MC_C16_gen', cfg='c16', cwd=tmpd, workers=8, line_cb=emitted.append)
         chk.add_tlc(res, 'imports')
